@@ -44,6 +44,11 @@ def text_ops(rng, t, full=False):
         pol = rng.choice(["skip", "throw"])
         mark = mark_tok(wo, rng.choice(MARKS[wo]))
         out0 = units(wo, encs(wo, [rand_scalar(rng) for _ in range(rng.choice([0, 0, 1, 3]))]))
+        if rng.random() < 0.3:
+            # prior content of the output string is opaque to the transcoder (for the BE classes it is already byte-swapped):
+            # arbitrary raw units, incl. values that look like surrogates, must be left alone
+            raw = {8: [0x41, 0x80, 0xC3, 0xFF, 0xD8, 0], 16: [0xD800, 0xDBFE, 0xDBFF, 0xDC00, 0xFFFF, 0x00D8, 0, 0x41], 32: [0xD800, 0x110000, 0xFFFFFFFF, 0, 0x41]}[wo]
+            out0 = units(wo, [rng.choice(raw) for _ in range(rng.choice([1, 2, 4]))])
         ops.append(f"utf.transcode {wi} {wo} {pol} {mark} {out0} {units(wi, encs(wi, t))}")
         # typed entry points incl. LE/BE
         if wi != 8 or wo != 8:
@@ -58,6 +63,34 @@ def text_ops(rng, t, full=False):
     return ops
 
 
+def wstr_ops(tier, rng, boost=1):
+    """string values and keys of every width inside the four archives (save + load through the real archives)"""
+    def xml_char(c):
+        return (c in (0x20, 0x21) or 0x23 <= c <= 0x25 or 0x28 <= c <= 0x3B or c == 0x3D or 0x3F <= c <= 0x7E or 0xA1 <= c <= 0xD7FF
+                or 0xE000 <= c <= 0xFFFD or 0x10000 <= c <= 0x10FFFF)
+    def name_char(c):
+        return 0x61 <= c <= 0x7A or 0x410 <= c <= 0x44F or 0x4E00 <= c <= 0x4E80 or 0x10400 <= c <= 0x1044F
+    ops = []
+    n = (60 if tier == "quick" else 1500) * boost
+    special = [0, 1, 0x7F, 0x80, 0x7FF, 0x800, 0xFFFF, 0xFFFD, 0xFEFF, 0x10000, 0x10FFFF, 0x1F3FF, 0xD7FF, 0xE000, 0x22, 0x5C, 0x2C, 0x3C, 0x26, 0x0A, 0x0D]
+    for i in range(n):
+        for arch in ("mp", "json", "xml", "csv"):
+            ln = rng.choice([1, 2, 5, 20, 300])
+            val = [rng.choice(special) if rng.random() < 0.3 else rand_scalar(rng) for _ in range(ln)]
+            key = [rng.choice([0x61, 0x6B, 0x416, 0x4E2D, 0x10428]) for _ in range(rng.choice([1, 2, 6]))]
+            if arch == "xml":
+                val = [c for c in val if xml_char(c)] or [0x41]
+                val = [0x41] + val + [0x42]                      # white-space-only / edge blanks are a recorded XML finding (C08)
+            else:
+                if arch == "csv":
+                    val = [c for c in val if c != 0] or [0x41]          # NUL confuses BOM-less detection of the CSV stream (C13 scope)
+            key = [c for c in key if name_char(c)] or [0x6B]
+            w = rng.choice(["8", "16", "32", "w"])
+            wn = 32 if w == "w" else int(w)
+            ops.append(f"wstr.rt {arch} {rng.choice(['mem', 'stream'])} {w} {units(wn, encs(wn, val))} {units(wn, encs(wn, key))}")
+    return ops
+
+
 def gen(tier, rng, boost=1):
     ops = []
     # every boundary scalar alone, all nine pairs
@@ -69,6 +102,7 @@ def gen(tier, rng, boost=1):
         ln = rng.choice([0, 1, 1, 2, 3, 5, 8, 13, 40, 200] if tier == "quick" else [0, 1, 2, 3, 5, 8, 13, 40, 200, 1000, 4096])
         t = [rand_scalar(rng) for _ in range(ln)]
         ops += text_ops(rng, t)
+    ops += wstr_ops(tier, rng, boost)
     if tier == "thorough":
         # exhaustive: every scalar value individually, in blocks of 64 scalars per op (each op = 64 scalars
         # concatenated; a wrong scalar anywhere changes the output), for all six cross-width pairs and both policies
